@@ -192,7 +192,7 @@ def model_histories(chk, pool, base, histories):
         with open(p, "w") as f:
             f.write(IMPORTS + "\nOpen Scope N_scope.\n")
             f.write("Definition tb : list (N * list etok) := %s.\n" % tb)
-            f.write("Eval vm_compute in List.map (run_history false tb %s %s) %s.\n" % (pt, ft, vlib.coq_list(["[" + ";".join(reqs[i]) + "]" for i in idxs])))
+            f.write("Eval vm_compute in List.map (run_history tb %s %s) %s.\n" % (pt, ft, vlib.coq_list(["[" + ";".join(reqs[i]) + "]" for i in idxs])))
         files.append(p)
     with ThreadPoolExecutor(min(vlib.NCPU, len(files) or 1)) as ex:
         res = list(ex.map(vlib.coq_eval_file, files))
@@ -257,10 +257,10 @@ def check_history(chk, base, pool, steps, outs, descs):
                 _, expr, all_, o_, pf, fmt, pre, text = d
                 exp = base.get(expr, text, fmt, o_, all_, pf, primed=(pre == 0))
             if exp is not None:
-                ok = out == exp[0] and norm_err(err) == norm_err(exp[1])
+                ok = out == exp[0] and err == exp[1]
                 m = GOT.search(err)
-                if m and m.group(1) != ty:
-                    ok = False
+                if m and m.group(1) not in ty.split():
+                    ok = False     # the type name an error shows must be one of the expression's own
                 if not ok:
                     problems.append((i, "correspondence", {"got": [out.decode("utf-8", "replace"), err], "model": [list(d)[:1], ty],
                                                             "model_bytes": [exp[0].decode("utf-8", "replace"), exp[1]]}))
@@ -510,7 +510,7 @@ def run(chk):
              % (kmax, len(EXPRS), len(LOADS), npairs + 2, rounds),
         trusted=vlib.COMMON_TRUSTED + [
             "Model/History.v: the list of shared mutable objects was collected by reading pkg/yqlib (grep for package-level variables, receiver fields, assignments to ExpressionNode/Operation); parsing, decoding, evaluating and printing are abstract functions of the values the model hands them",
-            "the value part compared is stdout bytes + error text with the envsubst Type token normalised (the token itself is checked against the model)",
+            "compared: stdout bytes + error text (the operation type name an error shows must be one of the expression's own)",
             "Go memory model, goroutine scheduling, race detector: runtime (thorough tier searches, proves nothing)",
         ],
         assumptions=["time / random / env operators excluded (now, shuffle, env, strenv; envsubst only on text whose variables are unset)",
